@@ -23,7 +23,7 @@ from harness import common as C
 from harness import cases as CS
 from harness import C01
 from harness import transformkit as TK
-from symtorch import term as tm, scalars as sc, smt, explore, stubs
+from symtorch import term as tm, scalars as sc, smt, explore, stubs, poly
 from symtorch.scalars import S
 from symtorch.tensor import Sym, _obj
 from symtorch.taint import TS
@@ -154,9 +154,45 @@ def job_case(cfg):
     jr["outcomes"].append({"name": name + "/batch-size-1-terms-occur-as-row-0-of-a-2-row-batch", "kind": "goal", "status": "unsat" if miss == 0 else "sat", "s": 0.0, "expect": "unsat", "detail": "%d single-row paths without a matching row 0" % miss})
     if miss:
         report(jr, case.name, direction, "batch-size-one", "a batch of one is evaluated differently from row 0 of a batch of two")
+    # row 0 of a two-row batch is the same function of row 0 whatever row 1 does: on every two-row path P, the row-0
+    # results equal those of the single-row path Q that the same row-0 values take (P and Q with different row-0
+    # terms must have incompatible conditions, or provably equal values)
+    singles = [q for q in res1 if q.kind == "return"]
+    twos = [r for r in results if r.kind == "return"]
+    n_cross = 0
+    if len(singles) * len(twos) <= (400 if C.TIER == "quick" else 4000):
+        for pi, r in enumerate(twos):
+            t2 = [s.t for s in r.value[0].a[0].reshape(-1)] + [r.value[1].a.reshape(-1)[0].t]
+            for qi, q in enumerate(singles):
+                t1 = [s.t for s in q.value[0].a[0].reshape(-1)] + [q.value[1].a.reshape(-1)[0].t]
+                if len(t1) != len(t2):
+                    continue
+                if all(a is b for a, b in zip(t1, t2)):
+                    continue
+                cond = list(r.path.condition()) + list(q.path.condition())
+                goal = tm.and_(*[poly.eq_goal(a, b)[0] for a, b in zip(t1, t2)])
+                n_cross += 1
+                o = C.prove(R, solver, "%s/two-row-path%d-vs-single-path%d/row0-same-function" % (name, pi, qi), goal, [cond], 20)
+                jr["outcomes"].append(dict(o.as_dict(), expect="unsat", kind="goal"))
+                if o.status == "sat":
+                    leaves = C.leaf_values(R, o.model)
+                    with stubs.real_torch():
+                        rep = replay_rows(case.name, direction, leaves)
+                    sig = {"case": case.name.split("/")[0], "relation": "row0-depends-on-row1"}
+                    payload = {"property": PROP, "kernel": case.name, "relation": "row0-depends-on-row1", "signature": sig, "leaves": leaves, "replay_result": rep, "replay_call": {"fn": "harness.C12:replay_rows", "args": {"case_name": case.name, "direction": direction, "leaves": leaves}}}
+                    if rep.get("reproduced"):
+                        fnm = "".join(ch if ch.isalnum() else "_" for ch in "%s_%s_row0_vs_single" % (case.name, direction))[:100]
+                        if not any(v["relation"] == "row0-depends-on-row1" for v in jr["violations"]):
+                            jr["violations"].append({"kernel": case.name, "relation": "row0-depends-on-row1", "signature": sig, "replay": C.write_replay(PROP, fnm, payload), "detail": rep})
+                    else:
+                        jr["inconclusive"].append({"query": o.name, "why": "solver model not reproduced on real tensors", "leaves": leaves, "replay": rep})
+                elif o.status != "unsat":
+                    jr["inconclusive"].append({"query": o.name, "status": o.status})
+    else:
+        jr.setdefault("notes", []).append("cross-path row-0 comparison skipped: %d x %d paths" % (len(twos), len(singles)))
     if n_ret == 0:
         jr["inconclusive"].append({"query": name, "why": "no returning path"})
-    jr["samples"].append({"case": name, "paths": len(results), "mirrored_paths": sym_paths})
+    jr["samples"].append({"case": name, "paths": len(results), "mirrored_paths": sym_paths, "cross_path_queries": n_cross})
     solver.close()
     return jr
 
@@ -202,6 +238,27 @@ def replay(case_name, direction, seed=0):
             worst = max(worst, float((yp - y[perm]).abs().max()), float((lp - l[perm]).abs().max()))
         res["max_deviation"] = worst
         res["reproduced"] = worst > 1e-9
+    except Exception as e:  # noqa
+        res["exception"] = "%s: %s" % (type(e).__name__, e)
+    return res
+
+
+def replay_rows(case_name, direction, leaves):
+    """real tensors from a solver model: row 0 of the two-row batch versus row 0 evaluated alone."""
+    res = {"reproduced": False}
+    try:
+        case = CS.by_name(case_name)
+        m, x, ctx = case.build_real(leaves, n=2)
+        if any(isinstance(mod, (stubs.UFNet, TK.ARStub)) for mod in m.modules()):
+            C01._concretise_stubs(m)
+        f = m if direction == "forward" else m.inverse
+        call = (lambda a, c: f(a, c)) if ctx is not None else (lambda a, c: f(a))
+        with torch.no_grad():
+            y, l = call(x, ctx)
+            y0, l0 = call(x[0:1], None if ctx is None else ctx[0:1])
+        dev = max(float((y[0:1] - y0).abs().max()), float((l[0:1] - l0).abs().max()))
+        res.update({"x": x.reshape(2, -1).tolist(), "row0_in_batch": y[0].reshape(-1).tolist(), "row0_alone": y0.reshape(-1).tolist(), "max_deviation": dev})
+        res["reproduced"] = (not dev == dev) or dev > 1e-9
     except Exception as e:  # noqa
         res["exception"] = "%s: %s" % (type(e).__name__, e)
     return res
